@@ -36,19 +36,19 @@ CHECKS.update({
          "Non-overlap and happens-before are both checked: the receiver declares an unsynchronised write to its state at every entry, and the executor's vector-clock race detector (release/acquire edges from the atomics, mutexes, go statements and channel operations the code actually performs) must order every pair of entries and finds unordered plain/atomic conflicts in the repository's own accesses. A reported race cannot be confirmed by native replay and is trusted. Preemption bound 2.", "symbolic execution of go/ssa with a bounded-preemption scheduler + z3", "§5 C02"),
  "C03": ("Same inbox unit as C01: at quiescence (every goroutine finished, nobody sends any more) all accepted messages were handled, the ring is empty and the status is idle, for every interleaving of Send (push, try-schedule) with the worker's last empty pop, its running->idle transition, its re-check and with Start, within preemption bound 2.",
          "Bounds: 2 (thorough 3) senders x 2 messages, ring size 1..2, preemption bound 2.", "symbolic execution of go/ssa with a bounded-preemption scheduler + z3", "§5 C03"),
- "C08": ("Threaded execution of the real process/Context/SafeMap/Inbox code on a supervision tree (depth 1, fan-out 2): each node checks, at the instant it handles Stopped, that all its descendants have handled Stopped and are unregistered; the stop context's cancellation instant is checked the same way; Children()/Parent() are probed after a child stopped on its own. Shutdown by Stop or Poison, optionally racing with a third party poisoning a child. Two reproduced defects are listed as known findings.",
-         "Preemption bound 1 (thorough 2); children crashing during shutdown are outside the claim; native replays see Go's random map order and are attempted several times.", "symbolic execution of go/ssa with a bounded-preemption scheduler + z3", "§5 C08"),
+ "C08": ("Threaded execution of the real process/Context/SafeMap/Inbox code on a supervision tree (depth 1, fan-out 2): each node checks, at the instant it handles Stopped, that all its descendants have handled Stopped and are unregistered; the stop context's cancellation instant is checked the same way; Children()/Parent() are probed after a child stopped on its own. Shutdown by Stop or Poison, optionally racing with a third party poisoning a child, or with one child panicking once in its Stopped handler (the parent's shutdown must still complete). Second harness: a child poisoned by a third party asks the root, from inside its Stopped handler, for a replacement under the same name and id; Children() must then list the live replacement and a shutdown of the root must take it down. Two reproduced defects are listed as known findings.",
+         "Preemption bound 1 (thorough 2) for the shutdown harness, 2 for the replacement harness; children crashing on user messages during shutdown are outside the claim; native replays see Go's random map order and are attempted several times.", 'symbolic execution of go/ssa with a bounded-preemption scheduler + z3', '§5 C08'),
  "C09": ("Event-stream unit: the real eventStream receiver, Engine.send/SendLocal/BroadcastEvent/Subscribe/Unsubscribe and Registry on a bare engine, over every history of 4 (thorough 5) symbolic operations (subscribe/unsubscribe with the same or an equal PID object, broadcast, send to an unregistered local PID with/without sender, send to a foreign address without remote, send to nil, a subscriber stops while subscribed). Oracle: no panic, each undeliverable message is reported exactly once with its target, message and sender to every live subscriber, and the event queue drains (finite events).",
          "The event stream's own inbox is replaced by a queue the harness drains; 'finite' is checked as 'drains within 30 handled events per operation'.", "symbolic execution of go/ssa + z3, event-stream unit harness", "§5 C09"),
- "C10": ("Sequential histories of 5 (thorough 6) symbolic operations spawn/send/stop/deliver on one id (duplicate spawn runs no producer, publishes ActorDuplicateIdEvent, leaves the owner and its pending messages untouched; GetPID answers exactly while registered; respawn after stop works), plus two concurrent SpawnProc of one id with concurrent senders on the real Inbox (exactly one producer runs, one duplicate event, one Started) within preemption bound 2.",
-         "SpawnChild goes through the same Registry.add; Stop concurrent with Spawn is outside the claim.", "symbolic execution of go/ssa + z3, L1 and L2 harnesses", "§5 C10"),
+ "C10": ("Sequential histories of 5 (thorough 6) symbolic operations spawn/send/stop/deliver on one id (duplicate spawn runs no producer, publishes ActorDuplicateIdEvent, leaves the owner and its pending messages untouched; GetPID answers exactly while registered; respawn after stop works), plus two concurrent SpawnProc of one id with concurrent senders on the real Inbox (exactly one producer runs, one duplicate event, one Started) within preemption bound 2, plus a parent with two children that is stopped or poisoned while another goroutine spawns the parent's id again: the id may only be taken again once the previous owner's children have handled Stopped and are unregistered (preemption bound 1, thorough 2).",
+         "SpawnChild goes through the same Registry.add; a respawn accepted between an actor's unregistration and its own Stopped handler is not flagged.", 'symbolic execution of go/ssa + z3, L1 and L2 harnesses', '§5 C10'),
  "C11": ("Threaded execution of the real Engine.Request / Response.Result / Response.Send / Registry with 2 concurrent requests, 0..2 replies each from a replier goroutine, timeout timers that may fire at any scheduling point, and response ids from math/rand modelled as any value in range (the solver picks them, so an id collision is found if ids can collide). Oracle: Result returns the reply to that very request or an error, never returns without reply or timeout, the response PID is unregistered afterwards, a reply sent after Result returned becomes a dead letter.",
          "Preemption bound 1 (thorough 2); the timeout is a model (timer goroutine), not wall-clock time.", "symbolic execution of go/ssa with a bounded-preemption scheduler + z3", "§5 C11"),
  "C12": ("Event-stream unit as for C09 over histories of subscribe/unsubscribe/broadcast on 2 subscriber PIDs given as the same or an equal-but-distinct PID object (symbolic): each broadcast reaches each current subscriber exactly once, in order, nothing after unsubscribe, no duplicates after double subscribe. Lifecycle events: L1 process-unit histories count ActorStarted/Restarted/Stopped events per occurrence.",
          "Sequential: concurrent broadcasters are outside the claim.", "symbolic execution of go/ssa + z3, event-stream unit and L1 harnesses", "§5 C12"),
- "C15": ("The real streamWriter.Invoke encodes a batch of 1..2 (thorough 3) messages and the real streamReader.Receive decodes the resulting Envelope on a second bare engine. Targets, type names, payload byte, absence of a sender, the sender's address and id strings (1..2 symbolic bytes each, so equal senders and senders differing only in the address/id split are found by the solver) and a 'cannot be serialised' flag per message are symbolic. Oracle: same count (minus unserialisable ones), same order, right target, payload, type and sender, nil sender stays nil, no panic.",
-         "Protobuf marshalling and DRPC framing are outside: serializer/deserializer are stubs and the Envelope is handed over in memory.", "symbolic execution of go/ssa + z3, writer/reader round-trip harness", "§5 C15"),
- "C16": ("Three harnesses over the real receive path. (a) streamReader.Receive on one decoded Envelope with 0..2 type names, targets and senders and 1..2 (thorough 3) messages whose TargetIndex/SenderIndex/TypeNameIndex are unconstrained symbolic int32. (b) The real protobuf decoder Envelope.UnmarshalVT (with PID/Message.UnmarshalVT and skip) on every byte string of length 0..3 (thorough 0..7), each byte a symbolic 8-bit value, then the reader on whatever was accepted. (c) A well-formed table prefix from the real MarshalVT followed by one Messages field whose 0..4 (thorough 0..7) body bytes are symbolic, so multi-byte and negative index varints, unknown fields and truncated bodies are reached. Oracle everywhere: no panic in decoder or reader; a decoded envelope has no nil entries; whatever is delivered went to the target, with the type and sender that the message's own in-range indices name; z3 decides every branch on the bytes and every bounds check.",
+ "C15": ("(a) The real streamWriter.Invoke encodes a batch of 1..2 (thorough 3) messages and the real streamReader.Receive decodes the resulting Envelope on a second bare engine. Targets, type names, payload byte, absence of a sender, the sender's address and id strings (1..2 symbolic bytes each, so equal senders and senders differing only in the address/id split are found by the solver) and a 'cannot be serialised' flag per message are symbolic. Oracle: same count (minus unserialisable ones), same order, right target, payload, type and sender, nil sender stays nil, no panic. (b) The same with the Envelope carried as the bytes of the real generated MarshalVT and decoded by the real UnmarshalVT (size == SizeVT, decoding succeeds). (c) The generated codec alone: SizeVT/MarshalVT/UnmarshalVT of Envelope, Message and PID on an envelope whose message indices range over all of int32 one field at a time (every varint length class; negative values are 10-byte varints) with symbolic payload bytes; every field must come back (thorough: all three wide at once, two messages, table shapes).",
+         'Protobuf marshalling of the payloads (reflection) and DRPC framing are outside: serializer/deserializer are stubs.', 'symbolic execution of go/ssa + z3, writer/codec/reader round-trip harnesses', '§5 C15'),
+ "C16": ("Three harnesses over the real receive path. (a) streamReader.Receive on one decoded Envelope with 0..2 type names, targets and senders and 1..2 (thorough 3) messages whose TargetIndex/SenderIndex/TypeNameIndex are unconstrained symbolic int32. (b) The real protobuf decoder Envelope.UnmarshalVT (with PID/Message.UnmarshalVT and skip) on every byte string of length 0..5 (thorough 0..7), each byte a symbolic 8-bit value, then the reader on whatever was accepted. (c) A well-formed table prefix from the real MarshalVT followed by one Messages field whose 0..6 (thorough 0..8) body bytes are symbolic, so multi-byte and negative index varints, unknown fields and truncated bodies are reached. Oracle everywhere: no panic in decoder or reader; a decoded envelope has no nil entries; whatever is delivered went to the target, with the type and sender that the message's own in-range indices name; z3 decides every branch on the bytes and every bounds check.",
          "DRPC framing and payload decoding (stub Deserializer) are outside the claim; byte strings beyond the stated lengths are outside.", "symbolic execution of go/ssa + z3: reader harness, decoder on symbolic byte buffers", "§5 C16"),
  "C18": ("The real Agent.handleMembers/memberJoin/memberLeave/rebuildKinds and MemberSet code is run on sequences of 3 (thorough 4) snapshots over a universe of 3 (thorough 4) members; membership of each member in each snapshot and a duplicate entry are symbolic booleans. Oracle after each snapshot: view == snapshot by ID, exactly one join event per new member, one leave event per dropped member, none for members that stayed, kind set == kinds advertised by the view.",
          "Agent state is read directly instead of through the Members()/HasKind() request plumbing; members keep their host and kinds.", "symbolic execution of go/ssa + z3, agent snapshot harness", "§5 C18"),
